@@ -725,6 +725,12 @@ example : (match restart (crashLag (reorgUnits g a1 b2 [a1] [b2, b1]) 5 1 D) wit
            | .ok _ => none
            | .error e => some e) = some .noStateMarker := by decide
 
+/-- … and so does it when the top block's state bulk reached the disk without its completion marker (torn bulk:
+the first entry, the data, of the unit at position 2 — test on sample values). -/
+example : (match restart (crashLagTorn (reorgUnits g a1 b2 [a1] [b2, b1]) 5 2 1 D) with
+           | .ok _ => none
+           | .error e => some e) = some .noStateMarker := by decide
+
 /-- A reorganisation through a block that does not execute (`b1` bad) fails after zero units and leaves the node at
 `a1` (test on sample values). -/
 example : (feedB (fun i => i == b1.id) ⟨applyOps (sideUnit b1).ops (applyUnits (connectUnits a1) (genesisStore g)), a1, a1.root, []⟩ b2).2.1
